@@ -93,10 +93,11 @@ pub fn run_case(g: &Graph, ops: &[ROp], perms: &[Vec<usize>]) -> String {
 }
 
 pub fn gen_graph(r: &mut Rng, thorough: bool) -> Graph {
-    let n = match r.below(10) {
-        0 => 1,
-        1..=4 => r.range(2, 6),
-        5..=7 => r.range(6, 20),
+    let n = match if gen::small() { 0 } else { 1 + r.below(10) } {
+        0 => r.range(1, 4),
+        1 => 1,
+        2..=5 => r.range(2, 6),
+        6..=8 => r.range(6, 20),
         _ => r.range(20, if thorough { nodes::MAX_NODES as u64 } else { 48 }),
     } as usize;
     let with_ph = n >= 2 && r.chance(1, 3);
@@ -125,7 +126,7 @@ pub fn gen_graph(r: &mut Rng, thorough: bool) -> Graph {
 }
 
 pub fn gen_ops(r: &mut Rng, n: usize, thorough: bool) -> Vec<ROp> {
-    let len = r.range(1, if thorough { 12 } else { 8 }) as usize;
+    let len = r.range(1, if gen::small() { 3 } else if thorough { 12 } else { 8 }) as usize;
     let mut ops = vec![];
     for _ in 0..len {
         match r.below(10) {
